@@ -81,14 +81,16 @@ def reduce (tbl : Table) (st : Stack) (A n : Nat) (dp : Int) (pid : Nat) (eoe : 
               (q, PTree.node A pid (dp + sumDyn ks) (eoe && q == p) ks) :: rest)
 
 /-- `ts_parser__accept`: push the (extra) EOF leaf, pop everything, splice the children of the last
-non-extra tree in place; that tree's symbol and production id label the root. -/
+non-extra tree in place; that tree's symbol and production id label the root; the part of its
+dynamic precedence that came from its own reduce action (`own_dynamic_precedence`) is carried over
+to the rebuilt root. -/
 def acceptTree (st : Stack) : Option PTree :=
   let r := PTree.leaf 0 true :: st.map (·.2)      -- top first
   let after := (r.takeWhile PTree.isExtra).reverse
   match r.dropWhile PTree.isExtra with
-  | PTree.node sym pid _ _ kids :: beforeRev =>
+  | PTree.node sym pid dp _ kids :: beforeRev =>
     let all := beforeRev.reverse ++ kids ++ after
-    some (PTree.node sym pid (sumDyn all) false all)
+    some (PTree.node sym pid (sumDyn all + (dp - sumDyn kids)) false all)
   | _ => none
 
 structure Conf where
